@@ -253,23 +253,42 @@ func runC17(c *Ctx) {
 				atomicLoadsBehind(v, map[ssa.Value]bool{}, loads, &others)
 			}
 		}
-		// the hash test
+		// the hash test: every hit (a return whose last result is true) lies on the equal side of a
+		// comparison of the full hash stored in the entry loaded above - whichever way the test is written
 		hashOnSame := false
-		for _, b := range read.Blocks {
-			for _, ins := range b.Instrs {
-				if bo, ok := ins.(*ssa.BinOp); ok && bo.Op == token.EQL && strings.HasSuffix(pathExpr(bo.Y), ".hash") {
+		nHits := 0
+		for _, ret := range rets {
+			last := ret.Results[len(ret.Results)-1]
+			if v, isC := constBoolArg(last); !isC || !v {
+				continue
+			}
+			nHits++
+			ok := false
+			for _, ge := range edgeGuards(ret.Block()) {
+				bo, isBin := ge.cond.(*ssa.BinOp)
+				if !isBin || !((bo.Op == token.EQL && ge.pol) || (bo.Op == token.NEQ && !ge.pol)) {
+					continue
+				}
+				for _, side := range []ssa.Value{bo.X, bo.Y} {
+					if !strings.HasSuffix(pathExpr(side), ".hash") {
+						continue
+					}
 					hl := map[*ssa.Call]bool{}
 					var o2 []string
-					atomicLoadsBehind(bo.Y, map[ssa.Value]bool{}, hl, &o2)
+					atomicLoadsBehind(side, map[ssa.Value]bool{}, hl, &o2)
 					for l := range hl {
 						if loads[l] && len(hl) == 1 {
-							hashOnSame = true
+							ok = true
 						}
 					}
-					// the successful return must be on the true edge of this comparison
 				}
 			}
+			hashOnSame = ok
+			if !ok {
+				break
+			}
 		}
+		hashOnSame = hashOnSame && nHits > 0
 		nLoadCalls := 0
 		for _, b := range read.Blocks {
 			for _, ins := range b.Instrs {
